@@ -248,6 +248,46 @@ def tlc_mech_trace(module, trace_path, timeout=1800, name=None, xmx='6g', cfg=No
     return res
 
 
+def mech_validate(verdict, runs, module, cfg, tag, label, model_name, probes=()):
+    """Validate recorded runs (lists of events, each starting with its reset event) against a Mechanism-level trace spec.
+    A run the model cannot follow is reported as DRIFT and removed, so the rest is still validated (at most 5 rounds).
+    probes: (name, mutation) pairs - the mutated trace must be rejected, otherwise the binding is vacuous (ToolError)."""
+    flat = [e for r in runs for e in r]
+    path = os.path.join(WORK, tag, f'{label}.mech.ndjson')
+    os.makedirs(os.path.dirname(path), exist_ok=True)
+    if not flat:
+        return {'runs': 0, 'events': 0, 'matched': 0, 'runs_rejected': 0, 'corruption_probes': {}}
+    write_ndjson(path, flat)
+    res = tlc_mech_trace(module, path, name=f'{tag}_{label}_mech', cfg=cfg)
+    drift = 0
+    while (res['matched'] != res['total'] or res['invariant_violated']) and drift < 5:
+        drift += 1
+        i = min(max(res['matched'], 0), len(flat) - 1)
+        start = max(k for k in range(i + 1) if flat[k].get('e') == 'reset')
+        verdict.drift.append(f'{model_name} cannot follow run {flat[start].get("run")} at its event {i - start + 1}: {json.dumps(flat[i])[:200]}'
+                             + (f' (model invariant {res["invariant_violated"]})' if res['invariant_violated'] else ''))
+        nxt = [k for k in range(start + 1, len(flat)) if flat[k].get('e') == 'reset']
+        flat = flat[:start] + (flat[nxt[0]:] if nxt else [])
+        if not flat:
+            break
+        write_ndjson(path, flat)
+        res = tlc_mech_trace(module, path, name=f'{tag}_{label}_mech', cfg=cfg)
+    pr = {}
+    for pname, mut in probes:
+        mutated = mut(list(flat))
+        if mutated == flat:
+            pr[pname] = 'not applicable'
+            continue
+        pp = os.path.join(WORK, tag, f'{label}.mech.{pname}.ndjson')
+        write_ndjson(pp, mutated)
+        r2 = tlc_mech_trace(module, pp, name=f'{tag}_{label}_{pname}', cfg=cfg)
+        if r2['matched'] == r2['total'] and not r2['invariant_violated']:
+            raise ToolError(f'{module}: accepted the corrupted trace {pname}: the binding is vacuous')
+        pr[pname] = f'rejected at event {r2["matched"] + 1} of {r2["total"]}'
+    return {'runs': len(runs), 'events': res['total'], 'matched': res['matched'], 'tlc_states': res.get('tlc_states'),
+            'runs_rejected': drift, 'corruption_probes': pr}
+
+
 # ----------------------------------------------------------------------------- runs / replay files
 def split_runs(events):
     runs, cur = [], None
